@@ -237,3 +237,128 @@ Proof.
     rewrite dec_cons_tlv; [|apply ident_low; [lia | exact Hn] | apply Hf].
     rewrite <- (app_nil_r (enc t v)) at 1. rewrite IHt by assumption. reflexivity.
 Qed.
+
+Lemma encode_some t v b : encode t v = Some b <-> wf_val t v = true /\ b = enc t v.
+Proof.
+  unfold encode. destruct (wf_val t v); split.
+  - intros H. apply some_inj in H. auto.
+  - intros [_ ->]. reflexivity.
+  - discriminate.
+  - intros [H _]. discriminate.
+Qed.
+
+(* THE HEADLINE: for every unambiguous schema, decoding an encoding (followed by anything) returns the value
+   and the untouched rest.  Side conditions: the encoding is shorter than 2^32 octets (so that every length
+   fits the 4 length octets parse_len accepts) and the element fuel is at least its length. *)
+Theorem decode_encode t v b rest (fuel : nat) :
+  schema_ok t = true -> wf_val t v = true -> encode t v = Some b ->
+  zlen b < 2 ^ 32 -> (length b <= fuel)%nat ->
+  decode t fuel (b ++ rest) = Some (v, rest).
+Proof.
+  intros Hok Hwf He Hlen Hfuel. apply encode_some in He. destruct He as [_ ->].
+  apply decode_encode_rt; auto. split; [exact Hlen | unfold zlen; lia].
+Qed.
+
+Theorem decode_top_encode t v b :
+  schema_ok t = true -> wf_val t v = true -> encode t v = Some b -> zlen b < 2 ^ 32 ->
+  decode_top t b = Some v.
+Proof.
+  intros Hok Hwf He Hlen. unfold decode_top.
+  rewrite <- (app_nil_r b) at 2. rewrite (decode_encode t v b [] _ Hok Hwf He Hlen); [reflexivity | lia].
+Qed.
+
+Theorem encode_total t v : wf_val t v = true -> exists b, encode t v = Some b.
+Proof. intros H. unfold encode. rewrite H. eauto. Qed.
+
+Theorem encode_wf t v b : encode t v = Some b -> wf_val t v = true.
+Proof. intros H. apply encode_some in H. tauto. Qed.
+
+Theorem encode_injective t v1 v2 b :
+  schema_ok t = true -> encode t v1 = Some b -> encode t v2 = Some b -> zlen b < 2 ^ 32 -> v1 = v2.
+Proof.
+  intros Hok H1 H2 Hlen.
+  pose proof (decode_top_encode t v1 b Hok (encode_wf _ _ _ H1) H1 Hlen) as D1.
+  pose proof (decode_top_encode t v2 b Hok (encode_wf _ _ _ H2) H2 Hlen) as D2.
+  congruence.
+Qed.
+
+(* prefix-freeness: an encoding followed by anything is never re-read differently *)
+Corollary encode_prefix_free t v1 v2 b1 b2 r1 r2 :
+  schema_ok t = true -> encode t v1 = Some b1 -> encode t v2 = Some b2 ->
+  zlen b1 < 2 ^ 32 -> zlen b2 < 2 ^ 32 -> b1 ++ r1 = b2 ++ r2 -> v1 = v2 /\ r1 = r2.
+Proof.
+  intros Hok H1 H2 L1 L2 E.
+  pose proof (decode_encode t v1 b1 r1 (length b1 + length b2) Hok (encode_wf _ _ _ H1) H1 L1 ltac:(lia)) as D1.
+  pose proof (decode_encode t v2 b2 r2 (length b1 + length b2) Hok (encode_wf _ _ _ H2) H2 L2 ltac:(lia)) as D2.
+  rewrite E in D1. rewrite D1 in D2. inversion D2. auto.
+Qed.
+
+(* ---------- examples ---------- *)
+(* PrincipalName ::= SEQUENCE { name-type [0] Int32, name-string [1] SEQUENCE OF KerberosString } *)
+Definition ex_PrincipalName : ty := TSeq [(Some 0, false, TInt); (Some 1, false, TSeqOf TGenStr)].
+Definition ex_krbtgt : value :=
+  VSeq [Some (VInt 1); Some (VList [VBytes [107;114;98;116;103;116];                     (* "krbtgt" *)
+                                    VBytes [69;88;65;77;80;76;69;46;67;79;77]])].        (* "EXAMPLE.COM" *)
+
+Example ex_principal_bytes :
+  encode ex_PrincipalName ex_krbtgt =
+  Some [48;30; 160;3;2;1;1; 161;23;48;21; 27;6;107;114;98;116;103;116; 27;11;69;88;65;77;80;76;69;46;67;79;77].
+Proof. vm_compute. reflexivity. Qed.
+
+(* an APPLICATION-wrapped SEQUENCE with tagged OPTIONAL fields, an untagged OPTIONAL, a nested SEQUENCE OF
+   SEQUENCE, a raw embedded TLV, flags and an OID *)
+Definition ex_schema : ty :=
+  TApp 1 (TSeq [(Some 0, false, TInt);
+                (Some 1, true, TGenStr);
+                (Some 2, true, ex_PrincipalName);
+                (None, true, TBool);
+                (None, true, TEnum);
+                (Some 5, false, TGenTime);
+                (Some 6, true, TRaw);
+                (Some 7, true, TBits);
+                (Some 8, true, TOid);
+                (Some 9, false, TSeqOf (TSeq [(Some 0, false, TInt); (Some 1, true, TOctets)]))]).
+
+Definition ex_value : value :=
+  VSeq [Some (VInt (-129)); None; Some ex_krbtgt; None; Some (VInt 5); Some (VTime 951782400);
+        Some (VBytes [4;1;9]); Some (VBits 0 [64;129;0;0]); None;
+        Some (VList [VSeq [Some (VInt 18); Some (VBytes [1;2;3])]; VSeq [Some (VInt 23); None]])].
+
+Definition ex_bytes : bytes :=
+  [97;103;48;101; 160;4;2;2;255;127;
+   162;32;48;30;160;3;2;1;1;161;23;48;21;27;6;107;114;98;116;103;116;27;11;69;88;65;77;80;76;69;46;67;79;77;
+   10;1;5;
+   165;17;24;15;50;48;48;48;48;50;50;57;48;48;48;48;48;48;90;
+   166;3;4;1;9;
+   167;7;3;5;0;64;129;0;0;
+   169;23;48;21; 48;12;160;3;2;1;18;161;5;4;3;1;2;3; 48;5;160;3;2;1;23].
+
+Example ex_schema_ok : schema_ok ex_schema = true.
+Proof. vm_compute. reflexivity. Qed.
+Example ex_value_wf : wf_val ex_schema ex_value = true.
+Proof. vm_compute. reflexivity. Qed.
+Example ex_encode : encode ex_schema ex_value = Some ex_bytes.
+Proof. vm_compute. reflexivity. Qed.
+Example ex_decode : decode_top ex_schema ex_bytes = Some ex_value.
+Proof. vm_compute. reflexivity. Qed.
+(* the same through the theorem: its hypotheses are satisfiable *)
+Example ex_decode_by_theorem : decode_top ex_schema ex_bytes = Some ex_value.
+Proof.
+  apply decode_top_encode; [exact ex_schema_ok | exact ex_value_wf | exact ex_encode | vm_compute; reflexivity].
+Qed.
+Example ex_trailing_rejected : decode_top ex_schema (ex_bytes ++ [0]) = None.
+Proof. vm_compute. reflexivity. Qed.
+Example ex_nonminimal_length_rejected : decode_top TInt [2; 129; 1; 5] = None.
+Proof. vm_compute. reflexivity. Qed.
+Example ex_nonminimal_int_rejected : decode_top TInt [2; 2; 0; 5] = None.
+Proof. vm_compute. reflexivity. Qed.
+
+(* schema_ok is needed: an untagged OPTIONAL INTEGER before a mandatory INTEGER cannot be told apart *)
+Definition ex_ambiguous : ty := TSeq [(None, true, TInt); (None, false, TInt)].
+Example ex_ambiguous_not_ok : schema_ok ex_ambiguous = false.
+Proof. vm_compute. reflexivity. Qed.
+Example ex_ambiguous_fails :
+  wf_val ex_ambiguous (VSeq [None; Some (VInt 5)]) = true /\
+  encode ex_ambiguous (VSeq [None; Some (VInt 5)]) = Some [48; 3; 2; 1; 5] /\
+  decode_top ex_ambiguous [48; 3; 2; 1; 5] = None.
+Proof. vm_compute. auto. Qed.
